@@ -212,6 +212,44 @@ class SymLenFW:
         self.n = n
 
 
+class FWBuf:
+    """a mutable byte buffer (bytearray) that may hold opaque firmware content: fixed length, slice assignment"""
+
+    def __init__(self, init):
+        self.fw = FW([('zeros', init)]) if isinstance(init, int) else (init if isinstance(init, FW) else FW([('lit', bytes(init))]))
+
+    def __len__(self):
+        return len(self.fw)
+
+    def __setitem__(self, sl, value):
+        if not isinstance(sl, slice) or sl.step not in (None, 1):
+            raise core.EngineLimit('firmware buffer assigned other than by a slice')
+        a, b, _ = sl.indices(len(self.fw))
+        if isinstance(value, FWBuf):
+            value = value.fw
+        if isinstance(value, (bytes, bytearray)):
+            value = FW([('lit', bytes(value))]) if any(value) else FW([('zeros', len(value))])
+        if not isinstance(value, FW):
+            raise core.EngineLimit('firmware buffer assigned from %s' % type(value).__name__)
+        self.fw = self.fw[:a] + value + self.fw[max(a, b):]       # like bytearray: the buffer may change its length
+
+    def __getitem__(self, sl):
+        return self.fw[sl]
+
+    def __iter__(self):
+        return iter(self.fw)
+
+    def __iadd__(self, o):
+        self.fw = self.fw + (o.fw if isinstance(o, FWBuf) else o)
+        return self
+
+    def extend(self, o):
+        self.__iadd__(o)
+
+    def snapshot(self):
+        return FW(list(self.fw.segs))
+
+
 def _fw_unknown(what):
     raise core.EngineLimit(what)
 
@@ -573,11 +611,17 @@ def load_dfu(dev_holder, prints, sleeps, fw_holder, argv):
     def _bytes(*a, **k):
         if len(a) == 1 and isinstance(a[0], (Response, FW)):
             return a[0]
+        if len(a) == 1 and isinstance(a[0], FWBuf):
+            return a[0].snapshot()
         return bytes(*a, **k)
 
     def _bytearray(*a, **k):
-        if len(a) == 1 and isinstance(a[0], (Response, FW)):
+        if len(a) == 1 and isinstance(a[0], Response):
             return a[0]
+        if len(a) == 1 and isinstance(a[0], (FW, FWBuf)):
+            return FWBuf(a[0].snapshot() if isinstance(a[0], FWBuf) else a[0])
+        if len(a) == 1 and isinstance(a[0], int) and not k:
+            return FWBuf(a[0])          # a zero-filled buffer that may later receive firmware content
         return bytearray(*a, **k)
     mod.bytes = _bytes
     mod.bytearray = _bytearray
